@@ -39,7 +39,7 @@ import subprocess
 import sys
 import zipfile
 
-from mc.core import Acc, VERIF
+from mc.core import Acc, VERIF, h8
 
 PROPERTY = "C22"
 LEVEL = "model_checking"
@@ -228,11 +228,15 @@ def load(repo, name):
         with open(path, "rb") as f:
             raw = f.read()
     import gc
+    if len(raw) > 100000:         # keep at most one big file per process
+        stale = [k for k in _CACHE if _CACHE[k][2] > 100000]
+        if stale:
+            for k in stale:
+                del _CACHE[k]
+            gc.unfreeze()
+            gc.collect()
     gc.disable()                  # the parsed DEX is a huge long-lived object graph: keep the cyclic GC off it
     try:
-        if len(raw) > 100000:
-            for k in [k for k in _CACHE if _CACHE[k][2] > 100000]:
-                del _CACHE[k]
         d = dex.DEX(raw)
         dx = Analysis(d)
         gc.freeze()
@@ -243,15 +247,6 @@ def load(repo, name):
 
 
 _SIZES = {}
-
-
-def class_sizes(repo, name):
-    """number of methods per class (cheap: needs the parsed DEX only; computed in a short-lived child)."""
-    key = (repo, name)
-    if key not in _SIZES:
-        out = _run_child(repo, {"op": "sizes", "dexes": [name]})
-        _SIZES[key] = out[name]
-    return _SIZES[key]
 
 
 def all_sizes(repo):
@@ -678,10 +673,6 @@ def shards(ctx):
     sizes = all_sizes(ctx.repo)
     out = []
     big = [n for n in DEXES if sum(sizes[n]) > 1000]
-    # heaviest shards first (T on the big files), so that the pool packs well
-    for name in big + [n for n in DEXES if n not in big]:
-        for lo, hi in slices(sizes[name], T_SLICE):
-            out.append(("T", name, lo, hi))
     # S: one child per (part, seed); a part is half of a big file (the child has to parse the file) or all small files
     sd = seeds(ctx)
     parts = [[(n, 0, len(sizes[n])) for n in DEXES if n not in big]]
@@ -691,9 +682,13 @@ def shards(ctx):
             half += sizes[name][k]
             k += 1
         parts += [[(name, 0, k)]] + ([[(name, k, len(sizes[name]))]] if k < len(sizes[name]) else [])
-    for g in range(0, len(sd), 2):
-        for part in parts:
-            out.append(("S", part, sd[g:g + 2]))
+    # longest shards first (S on half a big file: 1 in-process run + 4 child runs), so that the pool packs well
+    for g in range(0, len(sd), 4):
+        for part in parts[1:] + parts[:1]:
+            out.append(("S", part, sd[g:g + 4]))
+    for name in big + [n for n in DEXES if n not in big]:
+        for lo, hi in slices(sizes[name], T_SLICE):
+            out.append(("T", name, lo, hi))
     for name in DEXES:
         for lo, hi in slices(sizes[name], G_SLICE):
             out.append(("G", name, lo, hi))
@@ -768,7 +763,7 @@ def _run_G(ctx, acc, cands, name, lo, hi):
         acc.state((name, "class", str(c.get_name()), th(ct0)))
         for i, t in enumerate(mt0):
             acc.state((name, ids[i], th(t)))
-            acc.outcomes.add(hash(t[:4] == "EXC:"))
+            acc.outcomes.add(h8(t))
         for aname, _ in fam + [("default", None)]:
             ct, mt = run_class(dx, c, aname)
             acc.transitions += len(meths)
@@ -793,7 +788,7 @@ def _run_G(ctx, acc, cands, name, lo, hi):
                     _viol(acc, cands, phase + "-classlevel", name,
                           {"kind": "assign" if aname != "default" else "repeat", "dex": name, "class": ci,
                            "method": None, "assign": aname}, ct0, ct, str(c.get_name()), how)
-        if ci == lo:
+        if ci == lo == 0 and name == "classes.dex":
             acc.sample({"part": "G", "dex": name, "class": str(c.get_name()), "methods": len(meths),
                         "assignments": ["default"] + [a for a, _ in fam] + ["default"],
                         "hashed_objects_in_class": len(rec)})
@@ -823,8 +818,8 @@ def _run_T(ctx, acc, cands, name, lo, hi):
             acc.count("methods_with_hashed_objects")
             if n > tmax:
                 acc.count("methods_over_transposition_bound")
-                acc.capped = ("transpositions only for methods with <= %d hashed objects (%s tier); larger methods "
-                              "get the global family only" % (tmax, ctx.tier))
+                acc.note("transpositions only for methods with <= %d really hashed objects (%s tier, stated in space); "
+                         "larger methods get the global family only" % (tmax, ctx.tier))
                 continue
             swaps = [(hashed[i], hashed[j]) for i in range(n) for j in range(i + 1, n)]
             specs = [["swap", a, b] for a, b in swaps]
@@ -846,7 +841,7 @@ def _run_T(ctx, acc, cands, name, lo, hi):
                     _viol(acc, cands, "idhash", name, {"kind": "swap", "dex": name, "class": ci, "method": mi,
                                                        "assign": spec}, t0, t, ident,
                           "transposition of identity hashes of objects %s (of %d hashed)" % (spec[1:], n))
-            if not sampled and n >= 4:
+            if not sampled and n >= 6 and lo == 0 and name == "classes.dex":
                 sampled = True
                 acc.sample({"part": "T", "dex": name, "method": ident, "hashed_objects": n,
                             "transpositions": len(swaps), "first": specs[0], "last": specs[-1]})
@@ -887,7 +882,7 @@ def _run_S(ctx, acc, cands, part, sds):
                 else:
                     acc.harness_error("hash-seed difference for %s class %d seed %d vanished on re-evaluation"
                                       % (name, ci, s))
-    if part[0][1] == 0:
+    if part[0][0] == "classes.dex" and sds[0] == 1:
         acc.sample({"part": "S", "files": [x[0] for x in part], "seeds": [0] + list(sds), "methods": nm})
 
 
@@ -912,7 +907,7 @@ def _hist_run(ctx, acc, cands, seqs, kind):
             acc.n += 1
             acc.nt_disjoint += 1
             acc.state((b[0], b[3], r["h"][pos]))
-            acc.outcomes.add(hash(r["h"][pos]))
+            acc.outcomes.add(h8(r["h"][pos]))
             if r["h"][pos] == alone[seq[pos]] or seq[pos] in reported:
                 continue
             reported.add(seq[pos])
